@@ -37,6 +37,22 @@ from . import ext as _ext
 _ext.drain = drain
 
 
+class PermIter:
+    """iterator over an unordered container: each next() forks over which remaining element comes first"""
+
+    def __init__(self, items):
+        self.rest = list(items)
+
+
+def map_entries(mv, refs=True):
+    if mv.is_set:
+        return [Ref.to(k) if refs else k for k, _ in mv.entries]
+    return [[Ref.to(k), Ref.to(v)] if refs else [k, v] for k, v in mv.entries]
+
+
+UNORDERED_SINK = [0]     # >0 while draining into an order-insensitive consumer (collect into a hash container, sum, count)
+
+
 def map_order(eng, mv):
     """a symbolic iteration order of an unordered container: fork over permutations (element by element)"""
     rest = list(mv.entries)
@@ -75,19 +91,16 @@ def into_iter(eng, callee, a, m, fc):
         if isinstance(tgt, (VecV, SliceV)) or (isinstance(tgt, list) and not isinstance(tgt, Struct)):
             return IterV(elem_refs(tgt))
         if isinstance(tgt, MapV):
-            order = map_order(eng, tgt)
-            if tgt.is_set:
-                return IterV([Ref.to(k) for k in order])
-            return IterV([[Ref.to(kv[0]), Ref.to(kv[1])] for kv in order])
+            return PermIter(map_entries(tgt, True))
         if isinstance(tgt, En):
             return IterV([Ref.to(x) for x in tgt.f] if tgt.v == 'Some' else [])
         return v
-    if isinstance(v, (IterV, RangeV)):
+    if isinstance(v, (IterV, RangeV, LazyIter, PermIter)):
         return v
     if isinstance(v, VecV):
         return IterV(list(v.items))
     if isinstance(v, MapV):
-        return IterV(map_order(eng, v))
+        return PermIter(map_entries(v, False))
     if isinstance(v, En):
         return IterV(list(v.f) if v.v == 'Some' else [])
     if isinstance(v, list):
@@ -115,6 +128,13 @@ def it_next(eng, it):
             it.pos += 1
             return En('Some', [it.items[it.pos - 1]])
         return En('None')
+    if isinstance(it, PermIter):
+        if not it.rest:
+            return En('None')
+        if len(it.rest) == 1 or UNORDERED_SINK[0]:
+            return En('Some', [it.rest.pop(0)])
+        k = eng.choose([(z3.BoolVal(True), i) for i in range(len(it.rest))])
+        return En('Some', [it.rest.pop(k)])
     if isinstance(it, RangeV):
         a, b = it.a, it.b
         if is_sym(a) or is_sym(b):
@@ -211,12 +231,36 @@ def it_next(eng, it):
     raise Unsupported('next() on ' + type(it).__name__)
 
 
-def all_items(eng, it):
+def source_unordered(it):
+    """does this iterator chain start at an unordered container (and pass only order-preserving element-wise stages)?"""
     it = unref(it)
-    if isinstance(it, (VecV, SliceV)):
+    if isinstance(it, PermIter):
+        return len(it.rest) > 1
+    if isinstance(it, LazyIter):
+        if any(st[0] in ('enumerate', 'skip', 'take', 'zip', 'take_while', 'skip_while') for st in it.stages):
+            return False
+        return source_unordered(it.src)
+    if isinstance(it, VecV):
+        return it.unordered
+    if isinstance(it, MapV):
+        return len(it.entries) > 1
+    return False
+
+
+def all_items(eng, it, unordered_ok=False):
+    it = unref(it)
+    if unordered_ok and source_unordered(it):
+        UNORDERED_SINK[0] += 1
+        try:
+            return all_items(eng, it)
+        finally:
+            UNORDERED_SINK[0] -= 1
+    if isinstance(it, VecV):
+        return list(it._items) if UNORDERED_SINK[0] else list(it.items)
+    if isinstance(it, SliceV):
         return list(it.items)
     if isinstance(it, MapV):
-        return map_order(eng, it)
+        return map_entries(it, False) if UNORDERED_SINK[0] else map_order(eng, it)
     if isinstance(it, list) and not isinstance(it, Struct):
         return list(it)
     out = []
@@ -267,9 +311,13 @@ def iterator_method(eng, callee, a, m, fc):
     if name == 'rev':
         return IterV(list(reversed(all_items(eng, it))))
     if name in ('collect', 'collect_vec', 'to_vec'):
-        items = all_items(eng, it)
         ty = (fc[1] if fc else '') or ''
         tgt = callee
+        to_hash = ('HashSet<' in ty or 'HashMap<' in ty or re.search(r'collect::<(?:std::collections::)?Hash(?:Set|Map)', tgt) is not None)
+        src_unord = source_unordered(it)
+        items = all_items(eng, it, unordered_ok=True)
+        if src_unord and not to_hash and not (re.search(r'collect::<(?:std::result::)?Result<', tgt) or re.search(r'collect::<(?:std::option::)?Option<', tgt)):
+            return VecV(items, unordered=True)
         if 'HashSet<' in ty or 'HashSet<' in tgt.split(' as ')[-1] or re.search(r'collect::<(?:std::collections::)?HashSet', tgt):
             mv = MapV(is_set=True)
             for x in items:
@@ -296,7 +344,7 @@ def iterator_method(eng, callee, a, m, fc):
             return En('Some', [VecV(out)])
         return VecV(items)
     if name == 'count':
-        return len(all_items(eng, it))
+        return len(all_items(eng, it, unordered_ok=True))
     if name == 'last':
         items = all_items(eng, it)
         return En('Some', [items[-1]]) if items else En('None')
@@ -305,7 +353,7 @@ def iterator_method(eng, callee, a, m, fc):
         n = a[1]
         return En('Some', [items[n]]) if n < len(items) else En('None')
     if name in ('sum', 'product'):
-        items = all_items(eng, it)
+        items = all_items(eng, it, unordered_ok=True)
         isint = items and all(isinstance(unref(x), int) and not isinstance(unref(x), bool) for x in items)
         if not items and ('usize' in callee or 'u32' in callee or 'i32' in callee):
             isint = True
@@ -424,7 +472,12 @@ def _peek_len(eng, it):
 # ------------------------------------------------------------------------------------------------ Vec / slices
 def sort_by(eng, vec, cmpf, key=None):
     """specification-level sort: insertion sort driven by the comparator (forks over feasible orders); stable"""
-    items = vec.items if isinstance(vec, VecV) else vec
+    if isinstance(vec, VecV) and vec.unordered:
+        # sorting a bag under a total order gives one result whatever the incoming order was
+        vec.unordered = False
+        items = vec._items
+    else:
+        items = vec.items if isinstance(vec, VecV) else vec
     out = []
     for x in items:
         pos = len(out)
@@ -525,11 +578,12 @@ def vec_method(eng, callee, a, m, fc):
     if name == 'pop':
         return En('Some', [v.items.pop()]) if v.items else En('None')
     if name == 'len':
-        return len(v.items)
+        return len(v._items)
     if name == 'is_empty':
-        return len(v.items) == 0
+        return len(v._items) == 0
     if name == 'clear':
-        v.items.clear()
+        v._items.clear()
+        v.unordered = False
         return ()
     if name == 'insert':
         i = a[1]
@@ -684,6 +738,11 @@ def subslice(eng, r, rng):
 
 def slice_method_impl(eng, name, a, callee, fc):
     v = unref(a[0])
+    if isinstance(v, VecV) and name in ('len', 'is_empty'):
+        return len(v._items) if name == 'len' else len(v._items) == 0
+    if isinstance(v, VecV) and v.unordered and name in ('sort_by', 'sort_unstable_by', 'sort', 'sort_unstable'):
+        sort_by(eng, v, a[1] if name.endswith('_by') else None)
+        return ()
     items = v.items if isinstance(v, (VecV, SliceV)) else v
     if name == 'len':
         return len(items)
@@ -813,6 +872,8 @@ def slice_method_impl(eng, name, a, callee, fc):
         return ()
     if name == 'into_vec':
         return v if isinstance(v, VecV) else VecV(list(items))
+    if name in ('index', 'index_mut'):
+        return vec_index(eng, callee, a, None, fc)
     if name == 'join':
         raise Unsupported('slice join')
     raise Unsupported('slice/Vec method ' + name)
@@ -887,6 +948,8 @@ def hash_method(eng, callee, a, m, fc):
     is_set = 'HashSet' in callee.split('::<')[0] or callee.startswith('HashSet') or callee.startswith('std::collections::HashSet')
     if name in ('new', 'with_capacity', 'default'):
         return MapV(is_set=is_set)
+    if name == 'index':
+        return hash_index(eng, callee, a, m, fc)
     mv = unref(a[0])
     if name == 'insert':
         if mv.is_set:
@@ -920,20 +983,18 @@ def hash_method(eng, callee, a, m, fc):
     if name == 'entry':
         return Struct('Entry', [mv, a[1]])
     if name in ('keys', 'into_keys'):
-        order = map_order(eng, MapV(mv.entries, True))
-        return IterV([Ref.to(k) for k in order] if name == 'keys' else order)
+        return PermIter([Ref.to(k) if name == 'keys' else k for k, _ in mv.entries])
     if name in ('values', 'values_mut', 'into_values'):
-        order = map_order(eng, mv)
-        return IterV([Ref.to(kv[1]) for kv in order] if name != 'into_values' else [kv[1] for kv in order])
+        ent = mv.entries
+        if name == 'into_values':
+            return PermIter([v for _, v in ent])
+        return PermIter([Ref((lambda i: lambda: ent[i][1])(i), (lambda i: lambda v: ent.__setitem__(i, (ent[i][0], v)))(i)) for i in range(len(ent))])
     if name in ('iter', 'iter_mut'):
-        order = map_order(eng, mv)
-        if mv.is_set:
-            return IterV([Ref.to(k) for k in order])
-        return IterV([[Ref.to(kv[0]), Ref.to(kv[1])] for kv in order])
+        return PermIter(map_entries(mv, True))
     if name == 'drain':
-        order = map_order(eng, mv)
+        e = map_entries(mv, False)
         mv.entries.clear()
-        return IterV(order)
+        return PermIter(e)
     if name == 'retain':
         order = map_order(eng, mv)
         keep = []
@@ -948,7 +1009,7 @@ def hash_method(eng, callee, a, m, fc):
         mv.entries[:] = keep
         return ()
     if name == 'extend':
-        for x in _ext.all_items(eng, a[1]):
+        for x in all_items(eng, a[1], unordered_ok=True):
             if mv.is_set:
                 set_insert(eng, mv, unref(x) if isinstance(x, Ref) else x, None)
             else:
@@ -1019,7 +1080,7 @@ def hash_from_iter(eng, callee, a, m, fc):
     else:
         mv = unref(a[0])
         src = a[1]
-    for x in _ext.all_items(eng, src):
+    for x in all_items(eng, src, unordered_ok=True):
         if is_set:
             set_insert(eng, mv, unref(x) if isinstance(x, Ref) else x, None)
         else:
